@@ -128,7 +128,7 @@ Section Closed.
   Proof. intros t n Ht Hn. unfold refs_declared in Hrd. rewrite forallb_forall in Hrd.
     specialize (Hrd t Ht). rewrite forallb_forall in Hrd. apply mem_In. apply Hrd. exact Hn. Qed.
 
-  Lemma kf_parts : kf_prefix p = false /\ kf_zod_enum p zod = false /\ kf_dup_listener p = false /\ kf_collision p zod = false.
+  Lemma kf_parts : kf_prefix p = false /\ kf_dup_listener p = false /\ kf_collision p zod = false.
   Proof. unfold kf_C02 in Hkf. rewrite !orb_false_iff in Hkf. tauto. Qed.
 
   Lemma clean : forall t, In t (prefixed_ts p) -> atp_clean m t = true.
@@ -138,12 +138,13 @@ Section Closed.
     { apply existsb_exists. exists t. split; [exact Ht|]. fold m. rewrite E. reflexivity. }
     rewrite Hc in H. discriminate. Qed.
 
-  Lemma not_enum : zod = true -> forall n, In n (type_pos_names p) -> In n (used p) -> is_enum p n = false.
-  Proof. intros Hz n Hn Hu. destruct kf_parts as [_ [H _]]. unfold kf_zod_enum in H. rewrite Hz in H. cbn [andb] in H.
-    destruct (is_enum p n) eqn:E; [|reflexivity]. exfalso.
-    assert (existsb (fun n => is_enum p n && mem n (used p)) (type_pos_names p) = true) as Hc.
-    { apply existsb_exists. exists n. split; [exact Hn|]. rewrite E. apply mem_In in Hu. rewrite Hu. reflexivity. }
-    rewrite Hc in H. discriminate. Qed.
+  Lemma first_by_name_incl : forall l seen e, In e (first_by_name seen l) -> In e l.
+  Proof. induction l as [|x r IH]; intros seen e H; cbn [first_by_name] in H; [destruct H|].
+    destruct (mem (fst x) seen).
+    - right. eapply IH. exact H.
+    - destruct H as [<-|H]; [left; reflexivity|right; eapply IH; exact H]. Qed.
+  Lemma levents_events : forall e, In e (levents p) -> In e (events p).
+  Proof. intros e H. unfold levents in H. eapply first_by_name_incl. exact H. Qed.
 
   (* ---------------- sites ---------------- *)
   Lemma site_cmd : forall c t, In c (cmds p) -> In t (cmd_site_ts c) -> In t (all_site_ts p).
@@ -159,11 +160,11 @@ Section Closed.
   Lemma site_field : forall n f, In n (used p) -> In f (fields_of p n) -> In (field_ts f) (all_site_ts p).
   Proof. intros n f Hn Hf. unfold all_site_ts. apply in_or_app. right. apply in_or_app. left. apply in_flat_map. exists n.
     split; [exact Hn|]. apply in_map_iff. exists f. auto. Qed.
-  Lemma site_event : forall e, In e (events p) -> In (pts (snd e)) (all_site_ts p).
-  Proof. intros e He. unfold all_site_ts. apply in_or_app. right. apply in_or_app. right. apply in_map_iff. exists e. auto. Qed.
+  Lemma site_event : forall e, In e (levents p) -> In (pts (snd e)) (all_site_ts p).
+  Proof. intros e He. apply levents_events in He. unfold all_site_ts. apply in_or_app. right. apply in_or_app. right. apply in_map_iff. exists e. auto. Qed.
   Lemma pre_ret : forall c, In c (cmds p) -> In (ret_ts c) (prefixed_ts p).
   Proof. intros c Hc. unfold prefixed_ts. apply in_or_app. left. apply in_map_iff. exists c. auto. Qed.
-  Lemma pre_event : forall e, In e (events p) -> In (pts (snd e)) (prefixed_ts p).
+  Lemma pre_event : forall e, In e (levents p) -> In (pts (snd e)) (prefixed_ts p).
   Proof. intros e He. unfold prefixed_ts. apply in_or_app. right. apply in_map_iff. exists e. auto. Qed.
 
   (* ---------------- what types.ts exports ---------------- *)
@@ -177,10 +178,10 @@ Section Closed.
     apply in_or_app. right. apply in_or_app. left. apply in_flat_map. exists c. split; [exact Hc|]. rewrite Hp. left. reflexivity. Qed.
   Lemma schema_exported : zod = true -> forall n, In n (used p) -> In (n ++ S_ "Schema") tex.
   Proof. intros Hz n Hn. unfold tex, types_sum. rewrite Hz. cbn [ms_exports]. apply in_or_app. left. apply in_flat_map. exists n.
-    split; [exact Hn|]. destruct (is_enum p n); left; reflexivity. Qed.
-  Lemma custom_exported : forall n, In n (used p) -> (zod = true -> is_enum p n = false) -> In n tex.
-  Proof. intros n Hn He. unfold tex, types_sum. destruct zod; cbn [ms_exports].
-    - apply in_or_app. left. apply in_flat_map. exists n. split; [exact Hn|]. rewrite (He eq_refl). right. left. reflexivity.
+    split; [exact Hn|]. left; reflexivity. Qed.
+  Lemma custom_exported : forall n, In n (used p) -> In n tex.
+  Proof. intros n Hn. unfold tex, types_sum. destruct zod; cbn [ms_exports].
+    - apply in_or_app. left. apply in_flat_map. exists n. split; [exact Hn|]. right. left. reflexivity.
     - apply in_or_app. left. exact Hn. Qed.
 
   Lemma has_c_in : forall c ch, In ch (chans c) -> has_c c = true.
@@ -189,15 +190,9 @@ Section Closed.
   Proof. intros c ch Hc H. unfold any_chan. apply existsb_exists. exists c. split; [exact Hc|]. eapply has_c_in. exact H. Qed.
 
   (* a bare name of a type text in type position: built-in or an exported declaration *)
-  Lemma bare_type_name : forall t x, In t (all_site_ts p) -> prims_ok t -> In x (bn m t) ->
-    (zod = true -> In x (type_pos_names p)) -> In x builtins \/ In x tex.
-  Proof. intros t x Ht Hok Hx Hpos. destruct (bn_sound m t Hmaps Hok x Hx) as [Hb|Hc]; [left; exact Hb|].
-    right. assert (In x (used p)) as Hu by (eapply declared; eauto).
-    apply custom_exported; [exact Hu|]. intros Hz. apply not_enum; auto. Qed.
-
-  Lemma chan_pos : forall c ch x, In c (cmds p) -> In ch (chans c) -> In x (bn m (pts (qtts (snd ch)))) -> In x (type_pos_names p).
-  Proof. intros c ch x Hc Hch Hx. unfold type_pos_names. apply in_or_app. right. apply in_flat_map. exists c. split; [exact Hc|].
-    apply in_flat_map. exists ch. split; [exact Hch|exact Hx]. Qed.
+  Lemma bare_type_name : forall t x, In t (all_site_ts p) -> prims_ok t -> In x (bn m t) -> In x builtins \/ In x tex.
+  Proof. intros t x Ht Hok Hx. destruct (bn_sound m t Hmaps Hok x Hx) as [Hb|Hc]; [left; exact Hb|].
+    right. apply custom_exported. eapply declared; eauto. Qed.
 
   Lemma chan_refs_resolve : forall c r, In c (cmds p) -> In r (chan_refs p c) -> resolves tex (types_sum p zod) r.
   Proof. intros c r Hc Hr. unfold chan_refs in Hr. apply in_flat_map in Hr. destruct Hr as [ch [Hch Hr]].
@@ -207,8 +202,7 @@ Section Closed.
     - apply in_map_iff in Hr. destruct Hr as [x [<- Hx]]. cbn [resolves]. fold m in Hx.
       destruct (bare_type_name (pts (qtts (snd ch))) x) as [Hb|He]; auto.
       + eapply site_chan; eauto.
-      + apply pts_prims_ok.
-      + intros _. eapply chan_pos; eauto. Qed.
+      + apply pts_prims_ok. Qed.
 
   (* a prefixed site: every reference resolves in a module that imports * as types from ./types *)
   Lemma prefixed_resolves : forall t (M : msum) r, In t (prefixed_ts p) -> In t (all_site_ts p) ->
@@ -219,10 +213,7 @@ Section Closed.
     destruct r as [n|a n].
     - cbn [resolves]. right. right. apply mem_In. exact Hc.
     - apply andb_true_iff in Hc. destruct Hc as [Ha Hn]. apply str_eqb_eq in Ha. subst a. apply mem_In in Hn.
-      cbn [resolves]. split; [exact Hstar|]. assert (In n (used p)) as Hu by (eapply declared; eauto).
-      apply custom_exported; [exact Hu|]. intros Hz. apply not_enum; auto.
-      unfold type_pos_names. apply in_or_app. left. apply in_flat_map. exists t. split; [exact Hpre|]. fold m. rewrite E.
-      apply in_flat_map. exists (Qual (S_ "types") n). split; [exact Hr|left; reflexivity]. Qed.
+      cbn [resolves]. split; [exact Hstar|]. apply custom_exported. eapply declared; eauto. Qed.
 
   Ltac builtin := cbn [resolves]; right; right; apply mem_In; reflexivity.
 
@@ -233,13 +224,12 @@ Section Closed.
       assert (forall x, In (Bare x) [Bare (S_ "z")] -> resolves tex (types_sum p zod) (Bare x)) as Hz.
       { intros x [H|[]]. inversion H; subst. cbn [resolves]. right. left. unfold types_sum. rewrite Ez. cbn [ms_imports]. left. reflexivity. }
       apply in_app_or in Hr. destruct Hr as [Hr|Hr].
-      + apply in_flat_map in Hr. destruct Hr as [n [Hn Hr]]. destruct (is_enum p n) eqn:En.
-        * destruct Hr as [<-|[]]. apply Hz. left. reflexivity.
-        * destruct Hr as [<-|Hr]; [apply Hz; left; reflexivity|]. apply in_app_or in Hr. destruct Hr as [Hr|Hr].
-          -- apply in_flat_map in Hr. destruct Hr as [f [Hf Hr]]. fold m in Hr.
-             destruct (zn_sound m (field_ts f) Hmaps r Hr) as [->|[n' [Hn' ->]]]; [apply Hz; left; reflexivity|].
-             cbn [resolves]. left. apply schema_exported; [exact Ez|]. eapply declared; [eapply site_field; eauto|exact Hn'].
-          -- destruct Hr as [<-|[<-|[]]]; [apply Hz; left; reflexivity|]. cbn [resolves]. left. apply schema_exported; auto.
+      + apply in_flat_map in Hr. destruct Hr as [n [Hn Hr]].
+        destruct Hr as [<-|Hr]; [apply Hz; left; reflexivity|]. apply in_app_or in Hr. destruct Hr as [Hr|Hr].
+        * apply in_flat_map in Hr. destruct Hr as [f [Hf Hr]]. fold m in Hr.
+          destruct (zn_sound m (field_ts f) Hmaps r Hr) as [->|[n' [Hn' ->]]]; [apply Hz; left; reflexivity|].
+          cbn [resolves]. left. apply schema_exported; [exact Ez|]. eapply declared; [eapply site_field; eauto|exact Hn'].
+        * destruct Hr as [<-|[<-|[]]]; [apply Hz; left; reflexivity|]. cbn [resolves]. left. apply schema_exported; auto.
       + apply in_app_or in Hr. destruct Hr as [Hr|Hr].
         * apply in_flat_map in Hr. destruct Hr as [c [Hc Hr]]. destruct (has_p c) eqn:Hp; [|destruct Hr]. cbn [opt_l] in Hr.
           destruct Hr as [<-|Hr]; [apply Hz; left; reflexivity|]. apply in_flat_map in Hr. destruct Hr as [x [Hx Hr]]. fold m in Hr.
@@ -258,14 +248,12 @@ Section Closed.
         destruct (bare_type_name (field_ts f) x) as [Hb|He]; auto.
         * eapply site_field; eauto.
         * unfold field_ts. apply pts_prims_ok.
-        * intros H; rewrite Ez in H; discriminate.
       + apply in_flat_map in Hr. destruct Hr as [c [Hc Hr]]. destruct (has_pc c) eqn:Hpc; [|destruct Hr]. cbn [opt_l] in Hr.
         apply in_app_or in Hr. destruct Hr as [Hr|Hr].
         * apply in_flat_map in Hr. destruct Hr as [x [Hx Hr]]. apply in_map_iff in Hr. destruct Hr as [y [<- Hy]]. fold m in Hy. cbn [resolves].
           destruct (bare_type_name (pts (qtts (snd x))) y) as [Hb|He]; auto.
           -- eapply site_param; eauto.
           -- apply pts_prims_ok.
-          -- intros H; rewrite Ez in H; discriminate.
         * apply in_app_or in Hr. destruct Hr as [Hr|Hr].
           -- eapply chan_refs_resolve; eauto.
           -- destruct Hr as [<-|[<-|[]]]; builtin. Qed.
@@ -323,7 +311,7 @@ Section Closed.
     - left. reflexivity. Qed.
 
   Theorem model_nodup : exports_nodup (gen p zod).
-  Proof. destruct kf_parts as [_ [_ [Hl Hc]]]. unfold kf_collision in Hc. apply orb_false_iff in Hc. destruct Hc as [Ht Hcm].
+  Proof. destruct kf_parts as [_ [Hl Hc]]. unfold kf_collision in Hc. apply orb_false_iff in Hc. destruct Hc as [Ht Hcm].
     unfold exports_nodup, gen. cbn [f_types f_commands f_events f_index fobs_nodup].
     split; [apply has_dup_false_NoDup; exact Ht|]. split; [apply has_dup_false_NoDup; exact Hcm|]. split.
     - destruct (has_events p); cbn [fobs_nodup]; [|exact Logic.I]. apply has_dup_false_NoDup. unfold events_sum. cbn [ms_exports]. exact Hl.
